@@ -614,6 +614,17 @@ class SpecEval(object):
     def fn_is_bytes(self, n):
         return is_bytes(val_of(self.ev(n.args[0])))
 
+    def fn_urlpayload(self, n):
+        v = val_of(self.ev(n.args[0]))
+        return z3.If(is_bytes(v), vy(v), STR_FUNCS['utf8'](vs(v)))
+
+    def fn_substr(self, n):
+        s_, lo, ln = str_of(self.ev(n.args[0])), int_of(self.ev(n.args[1])), int_of(self.ev(n.args[2]))
+        return z3.SubString(s_, lo, ln)
+
+    def fn_bytes_of(self, n):
+        return vy(val_of(self.ev(n.args[0])))
+
     def fn_vb(self, n):
         return vb(val_of(self.ev(n.args[0])))
 
